@@ -57,7 +57,7 @@ func runC19(args []string) error {
 	r := rf.rng()
 	n := rf.count(1500, 30000)
 	sum := &Summary{Engine: "c19", Seed: rf.Seed,
-		Rule: "random multisets of shard updates (terms 0..4, leader ids 0..3 incl. no-leader, config-change indices 0..4, 1-3 shards) split into 1-4 update calls; 3/4 of them Raft-consistent (leader a function of term, membership a function of config-change index), for which the harness also applies two further permutations, a duplicated delivery and a remote-view merge and compares the implementation's views; distinct = distinct call sequences; non-trivial = at least two updates for one shard"}
+		Rule: "random multisets of shard updates (terms 0..4, leader ids 0..3 incl. no-leader, config-change indices 0..4, 1-3 shards) split into 1-4 update calls; 3/4 of them Raft-consistent (leader a function of term, membership a function of config-change index), for which the harness also applies two further permutations, a duplicated delivery and a remote-view merge and compares the implementation's views; plus event sequences through a real cluster.Cluster (Raft events, memberlist join/leave/update callbacks, push/pull of peer views incl. lagging peers) with the same oracle after every event; distinct = distinct call sequences; non-trivial = at least two updates for one shard"}
 	cf := &CasesFile{Requires: []string{"Model.Bytes", "Model.Obs", "Model.View", "Run.C19Run"}, CaseType: "c19case", Check: "c19_check", Show: "c19_model"}
 	seen := map[string]bool{}
 	hk := sum.hist("kind")
@@ -211,10 +211,49 @@ func runC19(args []string) error {
 	if len(sum.Samples) == 0 {
 		sum.Samples = append(sum.Samples, cf.Descr[0])
 	}
+	if err := runC19Cluster(rf, sum, cf); err != nil {
+		return err
+	}
 	names, err := cf.Write(rf.Out, "c19_cases", 400)
 	if err != nil {
 		return err
 	}
 	sum.CasesFiles = names
+	runC19Concurrent(sum)
 	return sum.write(rf.Out, "c19")
+}
+
+// runC19Concurrent: gossip updates arrive on several goroutines (memberlist callbacks and the Raft event listener);
+// whatever the interleaving, the view must end with the newest leader/term AND the newest membership: one stream of
+// updates only ever raises the term, the other only the config-change index.
+func runC19Concurrent(sum *Summary) {
+	rounds := 300
+	for r := 0; r < rounds; r++ {
+		v := cluster.VerifNewView()
+		const n = 40
+		done := make(chan struct{}, 2)
+		go func() {
+			for i := 1; i <= n; i++ {
+				v.Update([]dragonboat.ShardView{{ShardID: 1, LeaderID: uint64(1 + i%3), Term: uint64(i)}})
+			}
+			done <- struct{}{}
+		}()
+		go func() {
+			for i := 1; i <= n; i++ {
+				v.Update([]dragonboat.ShardView{{ShardID: 1, Replicas: map[uint64]string{1: strconv.Itoa(i)}, ConfigChangeIndex: uint64(i)}})
+			}
+			done <- struct{}{}
+		}()
+		<-done
+		<-done
+		sum.Evaluations++
+		got := v.ShardInfo(1)
+		if got.Term != n || got.LeaderID != uint64(1+n%3) || got.ConfigChangeIndex != n || got.Replicas[1] != strconv.Itoa(n) {
+			sum.violate(500000+r, "concurrent updates of one shard lose an update (the view does not end with the newest leader and the newest membership)",
+				map[string]any{"scenario": "two goroutines: 40 leader/term updates with rising terms, 40 membership updates with rising config-change index", "round": r},
+				fmt.Sprintf("view: leader %d term %d config-change %d replicas %v", got.LeaderID, got.Term, got.ConfigChangeIndex, got.Replicas))
+			return
+		}
+	}
+	sum.hist("concurrent").Inc("two update streams on one shard")
 }
